@@ -103,6 +103,10 @@ class _StubParser:
             self.napply = getattr(self, "napply", 0) + 1
             return Namespace(command=TaskPool.apply, func=self.s._verif_fn, args=(), kwargs=None, num=0,
                              group_name="%s%d" % (self.ch, self.napply), end_callback=None, cancel_callback=None)
+        if kind == "flushF":
+            return Namespace(command=TaskPool.flush, return_exceptions=False)
+        if kind == "gatherF":
+            return Namespace(command=TaskPool.gather_and_close, return_exceptions=False)
         return Namespace(command=TaskPool.flush, return_exceptions=True)
 
 
@@ -236,6 +240,89 @@ def tpl_listen(s1, k1, n1, s2, k2, n2, s3, k3, n3, s4, k4, n4, _twin=False):
         w.close(code)
 
 
+FKINDS = ("get", "flushF", "flush", "lock", "help", "gatherF", "nop")
+
+
+def tpl_listenfail(k1, k2, k3, _twin=False):
+    """One session on a pool in which a task has *failed* (callbacks done) and another is still running; K = 3 lines.
+    A waiting method that re-raises the task's exception (flush / gather_and_close without return_exceptions) is a
+    failing call like any other: its line is answered with the exception's text and the session goes on."""
+    w = World("c18.listenfail")
+    code = 0
+    try:
+        pool = TaskPool(pool_size=3, name="p")
+        it = Interp(w, pool, cbkind=1)
+        it.apply(2); w.settle()
+        it.fail(1); w.settle()
+        fault = str(w.W[1]["exc"])
+        server = _Server(pool)
+        rd, wr = _Reader(w), _Writer()
+        s = ControlSession(server, rd, wr)
+        s._parser = _StubParser(s, "a")
+        task = w.spawn(s.listen())
+        w.settle()
+        exp = []
+        forgotten = False        # a flush(return_exceptions=True) has forgotten the failed task
+        closing = False          # a gather_and_close that raised leaves the pool locked, nothing else
+        for k_ in (k1, k2, k3):
+            kind = "nop"
+            for j in range(len(FKINDS)):
+                if k_ == j:
+                    kind = FKINDS[j]
+            w.op(kind)
+            if kind == "nop":
+                continue
+            s._parser.plan.append((kind, 2))
+            rd.feed(b"line\n")
+            if kind == "get":
+                exp.append(str(pool.num_running))
+            elif kind == "flushF":
+                exp.append("ok" if forgotten else fault)
+            elif kind == "flush":
+                exp.append("ok")
+                forgotten = True
+            elif kind == "lock":
+                exp.append("ok")
+            elif kind == "help":
+                exp.append("aa")
+            elif kind == "gatherF":
+                if not forgotten:
+                    exp.append(fault)
+                elif w.live > 0:
+                    exp.append(None)       # waits for the running task: no answer yet
+                else:
+                    exp.append("ok")
+            w.settle()
+            kind_, exc = task_outcome(task)
+            if kind_ in ("exc", "cancelled"):
+                code = code or 1803
+            if exp and exp[-1] is None:
+                # the session is waiting inside gather_and_close: nothing more is answered until the task ends
+                if len(wr.out) != len(exp) - 1:
+                    code = code or 1805
+                it.release(0); w.settle()
+                exp[-1] = "ok"
+            if not code:
+                if len(wr.out) != len(exp):
+                    code = 1801
+                else:
+                    for got, e in zip(wr.out, exp):
+                        if got != (e + "\n").encode():
+                            code = code or 1802
+        if not code:
+            if task_outcome(task)[0] != "pending":
+                code = 1806
+            rd.feed(b"")
+            w.settle()
+            if task_outcome(task)[0] != "ok":
+                code = 1807
+        if _twin and not code and len(exp) == 3 and fault in exp and "ok" in exp:
+            code = 77
+        return code
+    finally:
+        w.close(code)
+
+
 class _Line:
     """Stands for the bytes a client sent: decode() yields the (symbolic) text of the line."""
 
@@ -320,7 +407,11 @@ def families(tier):
         pre += ["k4 == %d" % nk, "n4 == 0", "s4 == 0", "s1 == 0", "s3 == 0"]
         parts = parts_product(k1=range(nk), k2=range(nk))
     lmax = 4 if thorough else 3
-    return [Family(name="listen", fn="tpl_listen", params=P, pre=pre, parts=parts,
+    nf = len(FKINDS) - 1
+    famf = Family(name="listenfail", fn="tpl_listenfail", params=["k1", "k2", "k3"],
+                  pre=["0 <= k1 <= %d" % nf, "0 <= k2 <= %d" % nf, "0 <= k3 <= %d" % nf],
+                  parts=parts_product(k1=range(nf + 1)), twin_pre=["k1 == 1", "k2 == 2", "k3 == 1"], twin_args=[1, 2, 1])
+    return [famf, Family(name="listen", fn="tpl_listen", params=P, pre=pre, parts=parts,
                    twin_pre=["k1 == 5", "k2 == 1", "k3 == 0", "s2 == 1", "s3 == 0"],
                    twin_args=[0, 5, 0, 1, 1, 2, 0, 0, 0, 0, nk, 0]),
             Family(name="text", fn="tpl_text", params=["line", "again"], types={"line": "str"},
